@@ -227,6 +227,7 @@ class Exec:
         self.late = bool(case.get('late_open'))
         self.caller_errors = []             # exceptions raised to the caller of write() (outside the oracle)
         self.nevents = 0
+        self.prelude_obs = set()
         self.prelude_bad = None             # violation found in episode 1 / the between-episodes operation
         self.prelude_trace = []
         self.prelude_ws = []
@@ -273,15 +274,37 @@ class Exec:
                 raise RuntimeError(f'C01 harness: prelude event {e} not enabled after {self.trace}')
             self.do(e)
             bad = self.check()
+        mid = ep.get('mid')     # {'op': 'delete'|'close', 'pos': k}: the user aborts episode 1 after k more events
+        aborted = False
+        nafter = 0
         while bad is None:
             en = self.enabled()
+            if mid and not aborted and (nafter >= mid['pos'] or not en):
+                # fires between two loop iterations, after the first delivery and (when the tree still has that
+                # many events) before episode 1 is quiescent
+                if en:
+                    self.prelude_obs.add('mid_download_op_fired_while_the_save_was_in_flight')
+                (self.blob.delete if mid['op'] == 'delete' else self.blob.close)()
+                aborted = True
+                self.trace.append(f"<mid-{mid['op']}>")
+                bad = self.check(aborted=True)
+                continue
             if not en:
-                bad = self.check_final()
-                if bad is None and not self.blob.get_is_verified():
-                    raise RuntimeError('C01 harness: prelude is supposed to deliver a complete correct copy')
+                if not aborted:
+                    bad = self.check_final()
+                    if bad is None and not self.blob.get_is_verified():
+                        raise RuntimeError('C01 harness: prelude is supposed to deliver a complete correct copy')
                 break
             self.do(en[0])
-            bad = self.check()
+            nafter += 1
+            # an episode the user aborted owes safety only (liveness is not demanded of it)
+            bad = self.check(aborted=aborted)
+        if aborted and bad is None and mid['op'] == 'delete':
+            # outside the statement (it does not speak about a delete() racing with the save): observed, tallied
+            present, _ = self.stored()
+            if self.blob.get_is_verified():
+                self.prelude_obs.add('interpretation_only:blob_verified_again_after_racing_delete'
+                                     if present else 'interpretation_only:verified_flag_without_stored_bytes_after_racing_delete')
         self.prelude_trace = list(self.trace)
         self.prelude_ws = [w for w in self.ws if w is not None]
         if bad is not None:
@@ -416,13 +439,22 @@ class Exec:
             return False, None
         return True, (None if vb.closed else vb.getvalue())
 
-    def check(self):
-        """Safety invariant, every state.  Returns None or (kind, text)."""
+    def check(self, aborted=False):
+        """Safety invariant, every state.  Returns None or (kind, text).
+        aborted: the user called delete()/close() in the middle of this episode; then only "nothing is verified,
+        stored or called back unless a complete correct copy was delivered, and what is stored is the content"
+        is demanded (a verified flag without a file, or a forgotten length, are the user's doing)."""
         blob = self.blob
         present, data = self.stored()
         verified = blob.get_is_verified()
         ncb = len(self.callbacks)
-        if verified or present or ncb:
+        if aborted and (verified or present or ncb):
+            why = 'verified' if verified else ('stored' if present else 'callback')
+            if present and data != self.content:
+                return (f'{why}-with-wrong-bytes', f'{why} with stored bytes {data!r} != content {self.content!r}')
+            if not any(self.hit):
+                return (f'{why}-without-delivery', f'{why} although no writer delivered a complete correct copy')
+        elif verified or present or ncb:
             why = 'verified' if verified else ('stored' if present else 'callback')
             if not present:
                 return (f'{why}-without-stored-bytes', f'{why} although nothing is stored')
@@ -603,6 +635,9 @@ def _kclass(kind):
 
 def family_of(case):
     if case.get('episodes'):
+        mid = case['episodes'].get('mid')
+        if mid:
+            return 'episode2-after-mid-download-' + mid['op']
         return 'episode2-after-' + case['episodes']['between']
     if case.get('late_open'):
         return 'late-open'
@@ -638,6 +673,7 @@ def case_key(case):
     ep = case.get('episodes') or {}
     return (case['cls'], case['content'], case.get('known_length', True), bool(case.get('late_open')),
             bool(case.get('callback', True)), ep.get('prelude'), ep.get('between'),
+            tuple(sorted((ep.get('mid') or {}).items())),
             tuple(sorted((w['kind'], w['chunks'], w.get('L') or 0) for w in case['writers'])))
 
 
@@ -714,6 +750,8 @@ def explore(case, blob_dir, res, visited, use_hash=True, collect=None, record_st
                 res.count('transitions')
             elif ex.prelude_trace:
                 res.count('prelude_events', len(ex.prelude_trace))
+                for o in ex.prelude_obs:
+                    (res.tally if o.startswith('interpretation_only') else res.witness)(o)
                 if not ex.verified_at_start:
                     res.witness('episode2_starts_unverified_after_a_completed_download')
                 if ex.verified_at_start:
@@ -794,7 +832,11 @@ def describe(case):
     ws = ', '.join(f"{w['kind']}:{'|'.join(c.hex() for c in w['chunks'])}" + (f"@L={w['L']}" if w.get('L') is not None else '')
                    for w in case['writers'])
     ep = case.get('episodes')
-    extra = (f" (episode 1: {ep['prelude']})" if ep else '') + ('' if case.get('callback', True) else ' no-callback')
+    extra = ''
+    if ep:
+        mid = ep.get('mid')
+        extra = f" (episode 1: {ep['prelude']}" + (f", {mid['op']}() after {mid['pos']} more events" if mid else '') + ')'
+    extra += '' if case.get('callback', True) else ' no-callback'
     return f"{case['cls']} n={len(case['content'])} {family_of(case)}{extra} writers=[{ws}]"
 
 
@@ -840,12 +882,13 @@ def run_trace(case, events, blob_dir, complete=False):
 # ================================================================================================
 
 def fam(name, cls, n, k, chunking, mode='known', order='multiset', batch=100, maxchunks=None, big=False,
-        callback=True, prelude=None, between=None):
+        callback=True, prelude=None, between=None, mid=None):
     """big: the family's distinct-state digests are not shipped to the parent (tens of millions); its states
     are counted per batch instead (sum over batches of the distinct states visited inside the batch)."""
     return {'name': name, 'cls': cls, 'n': n, 'k': k, 'chunking': chunking, 'mode': mode, 'order': order, 'batch': batch,
             'maxchunks': maxchunks, 'big': big, 'callback': callback,
-            'episodes': {'prelude': prelude, 'between': between} if prelude else None}
+            'episodes': ({'prelude': prelude, 'between': between, 'mid': mid} if mid else
+                         {'prelude': prelude, 'between': between}) if prelude else None}
 
 
 def alphabet_of(f):
@@ -882,6 +925,10 @@ def count_cases(f):
     return a ** f['k'] if f['order'] == 'ordered' else math.comb(a + f['k'] - 1, f['k'])
 
 
+# events of the default schedule between the last write of the solo/race fixtures and quiescence of episode 1:
+# BlobBuffer STEP STEP STEP; BlobFile STEP STEP JR JD STEP STEP.  Position k = after k of them (0 = right after
+# the delivering write(s), before any callback ran).
+MID_POSITIONS = {'buffer': 3, 'file': 6}
 BETWEEN_OPS = {'file': ('delete', 'close', 'unlink+delete'), 'buffer': ('delete', 'read-once', 'close')}
 
 
@@ -903,6 +950,18 @@ def episode_families(tier, cls):
                 if not q and op in ('delete', 'unlink+delete'):
                     # the length is forgotten by delete(): episode 2 announces it again per writer, rightly or wrongly
                     F.append(fam('ep2-unknown-pairs-n3' + tag, cls, 3, 2, 'w', mode='unknown', batch=250, **kw))
+        # the user aborts episode 1 in the middle: delete()/close() as an event at every position between the
+        # first delivery and the quiescence of episode 1 (loop iterations, job run, job done), then - with nothing
+        # in flight any more - a plain delete(), the length is announced again and episode 2 is explored
+        for pre in (('solo', 'race') if (cb or not q) else ('solo',)):      # quick: no-callback blobs on solo only
+            for op in ('delete', 'close'):
+                for pos in range(MID_POSITIONS[cls]):
+                    tag = f"[{pre}/{op}@{pos}/{'cb' if cb else 'nocb'}]"
+                    kw = dict(callback=cb, prelude=pre, between='delete', mid={'op': op, 'pos': pos})
+                    F.append(fam('ep2mid-single-n3' + tag, cls, 3, 1, 'w' if q else 'all', batch=400, **kw))
+                    F.append(fam('ep2mid-pairs-n1' + tag, cls, 1, 2, 'w' if q else 'all', batch=100, **kw))
+                    if not q:
+                        F.append(fam('ep2mid-pairs-n3' + tag, cls, 3, 2, 'ws-', batch=90, **kw))
     return F
 
 
@@ -1266,7 +1325,7 @@ def work_single(idx, res):
 
 EXPECTED_WITNESSES = [
     'episode2_starts_unverified_after_a_completed_download', 'episode2_starts_on_a_still_verified_blob',
-    'blob_verified_again_in_episode2',
+    'blob_verified_again_in_episode2', 'mid_download_op_fired_while_the_save_was_in_flight',
     'two_writers_completed_before_any_callback_ran', 'pending_writer_cancelled_by_winner',
     'overlong_peer_on_chunk_boundary_wins', 'straddling_chunk_of_correct_prefix_refused',
     'hash_mismatch_refused', 'overlength_write_refused', 'file_on_disk_before_verified_event',
@@ -1311,7 +1370,9 @@ def run(ctx):
               'an event too | two episodes: a first download to completion on the SAME blob object (preludes solo / race = '
               'two complete before any callback / loser = over-long winner + pending truncated peer), then one of '
               'delete(), BlobBuffer one-shot read, close(), file unlinked + delete(), then episode 2 explored '
-              'exhaustively with the oracle applied to episode 2; blobs with and without a completed-callback) x tuple of '
+              'exhaustively with the oracle applied to episode 2; also delete()/close() fired as an event at every '
+              'position between the first delivery and the quiescence of episode 1 (safety only for the aborted episode), '
+              'followed by a plain delete() and episode 2; blobs with and without a completed-callback) x tuple of '
               '1..3 writer scripts; script = kind (correct, each byte flipped by one bit, every '
               'truncation incl. the empty one, over-long by 1, over-long by n, unrelated) x chunking (per family, see '
               'bounds.chunking_legend). For every case ALL interleavings of O(i)/S(i)/W(i)/STEP/JOB_RUN/JOB_DONE events '
